@@ -55,4 +55,6 @@ class GreenModel:
         return (self.op @ f).reshape(self.shape) * self.vol
 
     def tolerance(self, rhs: np.ndarray, eps: float, factor: float = 128.0) -> float:
+        # FFT round-off grows with the logarithm of the (doubled) transform size
+        factor = factor * max(1.0, np.log2(float(np.prod(self.shape)) * 2**self.dim) / 10.0)
         return factor * eps * self.vol * self.gmax * float(np.sum(np.abs(np.asarray(rhs, dtype=np.float64))))
